@@ -97,6 +97,23 @@ func (e *Engine) Prelude() string {
 (declare-fun cv_rawlist ((Array Int Slice) Int Int (Array Int (Array Int Int))) CVList)
 (declare-fun wf_err (Any Bytes) Any)
 (declare-fun dec_err (Any Bytes Int) Any)
+; ---- decoding (assumed contract of fxamacker/cbor DecMode.Unmarshal; see DESIGN.md section 3) ----
+(declare-fun dec_shape_err (Any Bytes Str) Any)   ; error of decoding item b into a destination of the named Go shape (nil = accepted)
+(declare-fun dec_elem (Bytes Int) Bytes)          ; encoded bytes of element i of the array item b
+(declare-fun dec_count (Bytes Int) Int)           ; number of elements of the array that is element i of b
+(declare-fun dec_isnull (Bytes Int) Bool)         ; element i of b is null / undefined
+(declare-fun dec_elem2 (Bytes Int Int) Bytes)     ; encoded bytes of element j of the array that is element i of b
+(declare-fun dec_any (Any Bytes) Any)             ; value produced by decoding b into an empty interface
+(declare-fun dec_map_dom (Any Bytes) (Array Any Bool))
+(declare-fun dec_map_val (Any Bytes) (Array Any Any))
+(declare-fun dec_map_len (Any Bytes) Int)
+(declare-fun dec_map_raw (Any Bytes Any) Bytes)   ; encoded bytes of the value under key k of the map item b
+(declare-fun dec_labels_err (Any Bytes) Any)      ; error of the label pre-validation decode (map[headerLabelValidator]discardedCBORMessage)
+(declare-fun dec_obj (Int Any) Int)               ; object ids of the per-key values allocated by one decode
+(declare-fun dec_obj2 (Int Int) Int)              ; object ids of the per-index values allocated by one decode
+(declare-fun dec_list_isnil (Bytes Int) Bool)
+(assert (forall ((b Bytes) (i Int)) (! (>= (dec_count b i) 0) :pattern ((dec_count b i)))))
+(assert (forall ((m Any) (b Bytes)) (! (>= (dec_map_len m b) 0) :pattern ((dec_map_len m b)))))
 (declare-fun dec_bytes_err (Any Bytes) Any)
 (declare-fun item_wf (Bytes) Bool)
 (assert (forall ((b Bytes)) (! (=> (>= (blen b) 1) (= (enc (cv_raw b)) b)) :pattern ((enc (cv_raw b))))))
@@ -125,6 +142,9 @@ func (e *Engine) Prelude() string {
 (define-fun bstr_wf ((b Bytes)) Bool (and (>= (blen b) 1) (= (b_major b) 2) (<= (b_ai b) 27) (>= (blen b) (+ 1 (head_extra b))) (= (blen b) (+ 1 (head_extra b) (head_arg b)))))
 (define-fun head_minimal ((b Bytes)) Bool (or (< (b_ai b) 24) (and (= (b_ai b) 24) (>= (head_arg b) 24)) (and (= (b_ai b) 25) (>= (head_arg b) 256)) (and (= (b_ai b) 26) (>= (head_arg b) 65536)) (and (= (b_ai b) 27) (>= (head_arg b) 4294967296))))
 (define-fun bstr_content ((b Bytes)) Bytes (bsub b (+ 1 (head_extra b)) (blen b)))
+; values the decoder produces for an interface destination under the configured modes: no Go integer type other than int64
+; (IntDecConvertSigned; larger positive integers are an error), and none of the package's own pointer / struct types
+(define-fun dec_val_ok ((v Any)) Bool (or (= v A_nil) ((_ is A_int64) v) ((_ is A_string) v) ((_ is A_LJbyte) v) ((_ is A_LJany) v) ((_ is A_mapLanyJany) v) ((_ is A_bool) v) ((_ is A_float64) v) (and ((_ is A_other) v) (= (other_tid v) 900006))))
 ; encoder contract for a byte string item: well-formed, shortest head, content verbatim
 (assert (forall ((b Bytes)) (! (and (bstr_wf (enc (cv_bstr b))) (head_minimal (enc (cv_bstr b))) (= (bstr_content (enc (cv_bstr b))) b)) :pattern ((enc (cv_bstr b))))))
 ; ---- errors ----
